@@ -55,23 +55,92 @@ Proof. unfold chain0. intros s0 s s' -> ->. auto. Qed.
 Ltac split_state s :=
   destruct s as [st0 tr0 pr0 pe0 af0 ws0 gh0].
 
-Lemma chain_trigger : forall s0 s t, chain0 s0 s -> chain0 s0 (fst (trigger_ s t)).
+(* callbacks that neither fire a trigger nor change `state` *)
+Definition simple_cb (c : callback) : bool :=
+  match c with Cb_fire _ | Cb_archive => false | _ => true end.
+Definition before_simple : bool :=
+  forallb (fun e => forallb simple_cb (e_before e)) edges.
+Lemma before_simple_ok : before_simple = true.
+Proof. vm_compute. reflexivity. Qed.
+
+Definition same_sh (s s' : fstate) : Prop := st s' = st s /\ hops (gh s') = hops (gh s).
+
+Lemma same_sh_set_tr : forall s v, same_sh s (fst (set_tr s v)).
+Proof. intros s v. unfold set_tr. destruct v; simpl; try (split; reflexivity);
+  destruct (status_eqb (tr s) Active); simpl; split; reflexivity. Qed.
+
+Lemma simple_cb_same : forall rec s c, simple_cb c = true -> same_sh s (fst (run_cb rec s c)).
 Proof.
-  intros s0 s t H. split_state s. unfold chain0 in *.
-  destruct st0, tr0, af0, t; destruct pr0 as [[]|];
-    vm_compute in H |- *; try exact H; repeat split; try exact H.
+  intros rec s c H. destruct c; try discriminate H; simpl;
+  unfold cb_start, cb_load, cb_navel_gaze, cb_save_prior_state, cb_reload, cb_reset, bind, set_tr;
+  destruct (status_eqb (tr s) Active); simpl; split; reflexivity.
 Qed.
 
-Lemma chain_complete : forall s0 s b, chain0 s0 s -> chain0 s0 (fst (complete s b)).
+Lemma simple_cbs_same : forall rec cs s, forallb simple_cb cs = true -> same_sh s (fst (run_cbs rec s cs)).
 Proof.
-  intros s0 s b H. split_state s. unfold chain0 in *.
-  destruct st0, tr0, af0, b; destruct pr0 as [[]|];
-    vm_compute in H |- *; try exact H; repeat split; try exact H.
+  intros rec cs. induction cs as [|c cs IH]; intros s H; simpl; [split; reflexivity|].
+  simpl in H. apply andb_true_iff in H. destruct H as [H1 H2].
+  pose proof (simple_cb_same rec s c H1) as [A B].
+  unfold bind. destruct (run_cb rec s c) as [s1 o]. simpl in *.
+  destruct o; simpl; try (split; assumption).
+  destruct (IH s1 H2) as [A2 B2]. split; congruence.
 Qed.
 
 Lemma chain_bind : forall s0 r k, chain0 s0 (fst r) -> (forall s, chain0 s0 s -> chain0 s0 (fst (k s))) ->
   chain0 s0 (fst (r >>= k)).
 Proof. intros s0 [s o] k H K. unfold bind. simpl in *. destruct o; simpl; auto. Qed.
+
+Lemma chain_set_tr : forall s0 s v, chain0 s0 s -> chain0 s0 (fst (set_tr s v)).
+Proof. intros s0 s v H. destruct (same_sh_set_tr s v) as [A B]. eapply chain0_ext; eauto. Qed.
+
+Lemma chain_run_cb : forall s0 rec, (forall s t, chain0 s0 s -> chain0 s0 (fst (rec s t))) ->
+  forall s c, chain0 s0 s -> chain0 s0 (fst (run_cb rec s c)).
+Proof.
+  intros s0 rec R s c H. destruct (simple_cb c) eqn:S.
+  - destruct (simple_cb_same rec s c S) as [A B]. eapply chain0_ext; eauto.
+  - destruct c; try discriminate S; unfold run_cb.
+    + apply chain_bind; [exact (chain_set_tr s0 s Entering H)|]. intros s1 H1.
+      destruct (archive_flag s1); [exact H1|].
+      cbn [prior set_tr_raw set_archive]. destruct (prior s1) as [p|]; [|exact H1].
+      destruct (state_trigger p); [|exact H1]. apply R. exact H1.
+    + apply R. exact H.
+Qed.
+
+Lemma chain_run_cbs : forall s0 rec, (forall s t, chain0 s0 s -> chain0 s0 (fst (rec s t))) ->
+  forall cs s, chain0 s0 s -> chain0 s0 (fst (run_cbs rec s cs)).
+Proof.
+  intros s0 rec R cs. induction cs as [|c cs IH]; intros s H; simpl; [exact H|].
+  apply chain_bind; [apply chain_run_cb; assumption|]. intros s1 H1. apply IH. exact H1.
+Qed.
+
+Lemma chain_fire : forall s0 fuel s t, chain0 s0 s -> chain0 s0 (fst (fire fuel s t)).
+Proof.
+  intros s0 fuel. induction fuel as [|f IH]; intros s t H; simpl; [exact H|].
+  destruct (find_edge t (st s)) as [e|] eqn:F; [|exact H].
+  apply fsm_find_edge_some in F. destruct F as [I [ET ES]].
+  assert (BS : forallb simple_cb (e_before e) = true).
+  { pose proof before_simple_ok as B. unfold before_simple in B.
+    rewrite forallb_forall in B. apply B. exact I. }
+  pose proof (simple_cbs_same (fire f) (e_before e) s BS) as [A B].
+  unfold bind at 1. destruct (run_cbs (fire f) s (e_before e)) as [s1 o] eqn:RB. simpl in A, B.
+  assert (H1 : chain0 s0 s1) by (eapply chain0_ext; eauto).
+  destruct o; simpl; try exact H1.
+  apply chain_run_cbs; [exact IH|].
+  assert (E : edge_ok (st s1) (e_dst e) = true).
+  { unfold edge_ok. apply existsb_exists. exists e. split; [exact I|].
+    rewrite A, <- ES. apply andb_true_iff. split; apply fsm_state_eqb_eq; reflexivity. }
+  unfold chain0 in *. destruct (trigger_eqb t T_update); simpl; repeat split; assumption.
+Qed.
+
+Lemma chain_trigger : forall s0 s t, chain0 s0 s -> chain0 s0 (fst (trigger_ s t)).
+Proof. intros. apply chain_fire. assumption. Qed.
+
+Lemma chain_complete : forall s0 s b, chain0 s0 s -> chain0 s0 (fst (complete s b)).
+Proof.
+  intros s0 s b H. destruct b; simpl; try (apply chain_trigger; exact H).
+  unfold archive_done. simpl. destruct (prior s) as [p|]; [|exact H].
+  destruct (state_trigger p); [|exact H]. apply chain_trigger. exact H.
+Qed.
 
 Lemma chain_crossroads : forall s0 s, chain0 s0 s -> chain0 s0 (fst (submit_crossroads s)).
 Proof.
@@ -145,168 +214,3 @@ Proof.
   destruct st0, tr0, af0, b; destruct pr0 as [[]|]; vm_compute; discriminate.
 Qed.
 
-(* ---- the environment that exists: shape invariant ---------------------------- *)
-Definition bg_eqb (a b : bg) : bool :=
-  match a, b with BgPipeline, BgPipeline | BgNavel, BgNavel | BgReload, BgReload | BgArchive, BgArchive => true | _, _ => false end.
-
-Definition pending_is (s : fstate) (l : list bg) : bool :=
-  match pending s, l with
-  | [], [] => true
-  | [a], [b] => bg_eqb a b
-  | _, _ => false
-  end.
-
-(* which (state, transitioning, outstanding steps) combinations occur *)
-Definition shape (s : fstate) : bool :=
-  match st s with
-  | S_starting => status_eqb (tr s) Active && pending_is s []
-  | S_loading => status_eqb (tr s) Entering && pending_is s [BgPipeline]
-  | S_contemplation => status_eqb (tr s) Entering && pending_is s [BgNavel]
-  | S_running | S_gitting => status_eqb (tr s) Active && pending_is s []
-  | S_updating => status_eqb (tr s) Exiting && pending_is s [BgReload]
-  | S_archiving => status_eqb (tr s) Entering && pending_is s [BgArchive] && archive_flag s &&
-                   match prior s with Some S_running | Some S_updating => true | _ => false end
-  end.
-
-(* endpoint 0 has a Process past step_1 exactly while the FSM is gitting;
-   endpoint 1 (deprecated fe/submit.py) is not used *)
-Definition sub_ok (s : fstate) : bool :=
-  match insub (gh s) with
-  | [a; 0] => match a with
-              | 0 => negb (state_eqb (st s) S_gitting)
-              | 1 => state_eqb (st s) S_gitting
-              | _ => false
-              end
-  | _ => false
-  end.
-
-Definition inv (s : fstate) : bool := shape s && sub_ok s.
-
-Definition core (s : fstate) := (st s, tr s, prior s, pending s).
-
-Definition rank (s : fstate) : nat :=
-  match st s with
-  | S_updating => 6
-  | S_archiving => match prior s with Some S_updating => 5 | _ => 1 end
-  | S_loading => 3
-  | S_contemplation => 2
-  | _ => 0
-  end.
-
-Ltac shape_cases s :=
-  split_state s; unfold shape, pending_is in *; simpl in *;
-  destruct st0, tr0; simpl in *; try discriminate;
-  destruct pe0 as [|b0 [|b1 pe1]]; simpl in *; try discriminate;
-  try (destruct b0; simpl in *; try discriminate).
-
-(* the triggers the environment fires, with the guard at the call site *)
-Definition env_guard (s : fstate) (t : trigger) : bool :=
-  match t with
-  | T_update | T_starting => true
-  | T_gitting => is_pipeline_active s
-  | T_running => state_eqb (st s) S_gitting
-  | T_archiving => is_pipeline_active s && archive_flag s
-  | _ => false
-  end.
-
-Lemma shape_trigger : forall s t, shape s = true -> env_guard s t = true ->
-  shape (fst (trigger_ s t)) = true /\ insub (gh (fst (trigger_ s t))) = insub (gh s).
-Proof.
-  intros s t H G. shape_cases s; destruct t; simpl in G; try discriminate G;
-  destruct af0; simpl in *; try discriminate;
-  try (destruct pr0 as [[]|]; simpl in *; try discriminate);
-  vm_compute; split; reflexivity.
-Qed.
-
-Lemma shape_complete : forall s b s', shape s = true -> pending s = [b] ->
-  s' = set_pending s [] ->
-  shape (fst (complete s' b)) = true /\ insub (gh (fst (complete s' b))) = insub (gh s) /\
-  rank (fst (complete s' b)) < rank s /\ st s <> S_gitting /\ st (fst (complete s' b)) <> S_gitting.
-Proof.
-  intros s b s' H P ->. shape_cases s; inversion P; subst;
-  destruct af0; simpl in *; try discriminate;
-  try (destruct pr0 as [[]|]; simpl in *; try discriminate);
-  vm_compute; repeat split; try reflexivity; try discriminate; try lia.
-Qed.
-
-(* shape / sub_ok / rank / core only read some fields *)
-Lemma shape_ext : forall s s', st s' = st s -> tr s' = tr s -> prior s' = prior s ->
-  pending s' = pending s -> archive_flag s' = archive_flag s -> shape s' = shape s.
-Proof. intros s s' A B C D E. unfold shape, pending_is. rewrite A, B, C, D, E. reflexivity. Qed.
-
-Lemma shape_pending1 : forall s, shape s = true -> pending s = [] \/ exists b, pending s = [b].
-Proof.
-  intros s H. split_state s. unfold shape, pending_is in H. simpl in *.
-  destruct pe0 as [|b0 [|b1 pe1]]; [left; reflexivity | right; exists b0; reflexivity |].
-  destruct st0; simpl in H; rewrite ?andb_false_r in H; discriminate H.
-Qed.
-
-Lemma shape_rest_iff : forall s, shape s = true -> st s <> S_starting ->
-  (at_rest s = true <-> pending s = []) /\ (rank s = 0 <-> at_rest s = true).
-Proof.
-  intros s H N. shape_cases s; try (exfalso; apply N; reflexivity);
-  vm_compute; repeat split; intros; try reflexivity; try discriminate; try lia.
-  all: try (destruct pr0 as [[]|]; simpl in *; rewrite ?andb_false_r in H; try discriminate; lia).
-Qed.
-
-Lemma shape_active_idle : forall s, shape s = true -> is_pipeline_active s = true -> pending s = [].
-Proof. intros s H A. shape_cases s; try reflexivity; vm_compute in A; discriminate A. Qed.
-
-(* ---- update_trigger by a waiter when the machine is busy: rejected, pure ----- *)
-Lemma busy_update_pure : forall s, shape s = true -> at_rest s = false ->
-  trigger_ s T_update = (s, Rejected).
-Proof.
-  intros s H R. shape_cases s; try (vm_compute in R; discriminate R); reflexivity.
-Qed.
-Lemma gitting_update_pure : forall s, st s = S_gitting -> trigger_ s T_update = (s, Rejected).
-Proof. intros s H. split_state s. simpl in H. subst. reflexivity. Qed.
-Lemma busy_starting_pure : forall s, st s <> S_starting -> trigger_ s T_starting = (s, Rejected).
-Proof. intros s H. split_state s. simpl in H. destruct st0; try reflexivity. exfalso; apply H; reflexivity. Qed.
-
-(* the environment with a single submit endpoint *)
-Definition env1 (e : event) : bool := is_env e && single_endpoint e.
-
-Lemma nth_set_nth0 : forall a b v, set_nth 0 v [a; b] = [v; b].
-Proof. reflexivity. Qed.
-
-Ltac inv_split H := unfold inv in H; apply andb_true_iff in H; destruct H as [Hs Hb].
-
-Lemma sub_cases : forall s, sub_ok s = true ->
-  (insub (gh s) = [0; 0] /\ st s <> S_gitting) \/ (insub (gh s) = [1; 0] /\ st s = S_gitting).
-Proof.
-  intros s H. unfold sub_ok in H.
-  destruct (insub (gh s)) as [|a [|b [|c l]]]; try discriminate H.
-  destruct b; [|destruct a as [|[|a]]; discriminate H].
-  destruct a as [|[|a]]; try discriminate H.
-  - left. split; [reflexivity|]. intro E. rewrite E in H. discriminate H.
-  - right. split; [reflexivity|]. apply fsm_state_eqb_eq. exact H.
-Qed.
-
-(* field-preservation facts used to transport shape/sub_ok through the
-   bookkeeping updates *)
-Ltac ext_shape := apply shape_ext; reflexivity.
-
-Lemma inv_crossroads : forall s, inv s = true ->
-  inv (fst (submit_crossroads s)) = true.
-Proof.
-  intros s H. unfold submit_crossroads.
-  destruct (negb (is_pipeline_active s)) eqn:A; [exact H|].
-  apply negb_false_iff in A.
-  destruct (priority (ws s)) as [[]|]; simpl; try exact H.
-  - (* NOW *) unfold wait_for_nothing, update_by. simpl.
-    inv_split H.
-    set (s1 := set_waits s (false, false, false)).
-    assert (S1 : shape s1 = true) by (rewrite <- Hs; ext_shape).
-    destruct (shape_trigger s1 T_update S1 eq_refl) as [S2 I2].
-    unfold inv. apply andb_true_iff. split.
-    + rewrite <- S2. ext_shape.
-    + destruct (sub_cases s Hb) as [[I N]|[I G]].
-      * unfold sub_ok. simpl. rewrite I2. simpl. rewrite I.
-        assert (R : st s = S_running) by (unfold is_pipeline_active in A; apply andb_true_iff in A; destruct A as [A _]; apply fsm_state_eqb_eq in A; exact A).
-        clear - R S1. subst s1. split_state s. simpl in *. subst. destruct tr0; try discriminate S1.
-        destruct pe0; try discriminate S1. reflexivity.
-      * unfold is_pipeline_active in A. rewrite G in A. discriminate A.
-  - unfold wait_for_crew, start_poller. simpl. destruct (get3 _ _); exact H.
-  - unfold wait_for_doing, start_poller. destruct (waits (ws s)) as [[c d] t0]. simpl. destruct (get3 _ _); exact H.
-  - unfold wait_for_todo, start_poller. destruct (waits (ws s)) as [[c d] t0]. simpl. destruct (get3 _ _); exact H.
-Qed.
